@@ -71,7 +71,10 @@ func instancePools(pi *simhook.PoolInfo) bool {
 }
 
 func (p *P) histInput(g gen.G) string {
-	switch g.S.Intn(8, "c08.in") {
+	switch g.S.Intn(9, "c08.in") {
+	case 8:
+		// one of the probe inputs itself: same text, same number of tokens as a later probe
+		return probe.Inputs[g.S.Intn(len(probe.Inputs), "c08.probein")].SQL
 	case 0:
 		return g.Valid()
 	case 1:
